@@ -660,3 +660,30 @@ CONTRACTS[U + 'random_pair'] = dict(
         ('lemma?', 'acq_diff2', ["at('if0.before', g2)", 'g2', 'g1', 'N', 'i', 'i'], 'optional'),
     ], 'if0.before': []},
 )
+
+# ------------------------------------------------------------------ C01 / C15: all pairwise products of two term lists
+_bd_prev = ['forall(a, 0, j1, forall(b, 0, L2, ps[a][b] == (ps1[a] + ps2[b] + IpowSum(gs1[a], gs2[b], N2 // 2)) % 4))',
+            'forall(a, 0, j1, forall(b, 0, L2, same(gs[a][b], Xor(gs1[a], gs2[b]))))',
+            'forall(a, 0, j1, forall(b, 0, L2, cs[a][b] == cmul(cs1[a], cs2[b])))']
+_bd_shapes = ['gs.shape[0] == L1', 'gs.shape[1] == L2', 'gs.shape[2] == N2', 'rows(ps) == L1', 'cols(ps) == L2', 'rows(cs) == L1', 'cols(cs) == L2',
+              'cols(gs1) == N2', 'cols(gs2) == N2']
+CONTRACTS[U + 'batch_dot'] = dict(
+    params=[('gs1', 'int2'), ('ps1', 'int1'), ('cs1', 'cplx1'), ('gs2', 'int2'), ('ps2', 'int1'), ('cs2', 'cplx1')],
+    requires=['cols(gs1) == cols(gs2)', 'len(ps1) == rows(gs1)', 'len(cs1) == rows(gs1)', 'len(ps2) == rows(gs2)', 'len(cs2) == rows(gs2)',
+              'bits2(gs1)', 'bits2(gs2)'],
+    # term j1*L2 + j2 of the result is the product of term j1 of the first and term j2 of the second list: string = sum mod 2,
+    # phase = p1 + p2 + product phase (oracle table) mod 4, coefficient = product of the coefficients
+    ensures=['rows(result[0]) == rows(gs1) * rows(gs2)', 'cols(result[0]) == cols(gs1)', 'len(result[1]) == rows(gs1) * rows(gs2)',
+             'len(result[2]) == rows(gs1) * rows(gs2)',
+             'forall(a, 0, rows(gs1), forall(b, 0, rows(gs2), forall(c, 0, cols(gs1), '
+             'result[0][a * rows(gs2) + b][c] == (gs1[a][c] + gs2[b][c]) % 2)))',
+             'forall(a, 0, rows(gs1), forall(b, 0, rows(gs2), '
+             'result[1][a * rows(gs2) + b] == (ps1[a] + ps2[b] + IpowSum(gs1[a], gs2[b], cols(gs1) // 2)) % 4))',
+             'forall(a, 0, rows(gs1), forall(b, 0, rows(gs2), result[2][a * rows(gs2) + b] == cmul(cs1[a], cs2[b])))'],
+    modifies=[], returns=('int2 fresh', 'int1 fresh', 'cplx1 fresh'),
+    loops={0: dict(var='j1', invariant=_bd_shapes + _bd_prev),
+           1: dict(var='j2', invariant=_bd_shapes + _bd_prev + ['0 <= j1 < L1',
+               'forall(b, 0, j2, ps[j1][b] == (ps1[j1] + ps2[b] + IpowSum(gs1[j1], gs2[b], N2 // 2)) % 4)',
+               'forall(b, 0, j2, same(gs[j1][b], Xor(gs1[j1], gs2[b])))',
+               'forall(b, 0, j2, cs[j1][b] == cmul(cs1[j1], cs2[b]))'])},
+)
